@@ -173,8 +173,11 @@ def one_case(w: Any, spec: tuple[str, int, bool], addr: str, steps: list[tuple[A
     return viols
 
 
-def typed_case(w: Any, dev_cls: str, vt: type[DPTBase], payload: Any, entry: Any) -> list[tuple[str, str]]:
-    """Sensor / NumericValue / ExposeSensor configured with value type `vt`, table entry `entry` on its address."""
+def typed_case(w: Any, dev_cls: str, vt: type[DPTBase], payload: Any, entry: Any, prev: Any = None) -> list[tuple[str, str]]:
+    """Sensor / NumericValue / ExposeSensor configured with value type `vt`, table entry `entry` on its address.
+
+    With `prev`: the table first held `prev` for the address and decoded one telegram with the same payload, then set() REPLACED the
+    entry on the live object (no clear()): nothing learnt under the earlier table may show in what the device takes."""
     import xknx.devices as D
 
     xknx = w.xknx
@@ -183,6 +186,12 @@ def typed_case(w: Any, dev_cls: str, vt: type[DPTBase], payload: Any, entry: Any
         kw = {"group_address_state": "2/0/1"} if dev_cls == "Sensor" else {"group_address": "2/0/1"}
         devs.append(getattr(D, dev_cls)(xknx, "dev", value_type=vt, **kw))
     xknx.group_address_dpt.clear()
+    if prev is not None:
+        xknx.group_address_dpt.set({"2/0/1": table_entry(prev, len(repr(payload)))})
+        try:
+            xknx.group_address_dpt.set_decoded_data(Telegram(GroupAddress("2/0/1"), payload=GroupValueWrite(payload), source_address=IndividualAddress("1.1.9"), direction=TelegramDirection.INCOMING))
+        except Exception:  # noqa: BLE001, S110  (the earlier table on its own is judged by the runs without `prev`)
+            pass
     xknx.group_address_dpt.set({"2/0/1": table_entry(entry, len(repr(payload)))})
     if xknx.group_address_dpt.get(GroupAddress("2/0/1")) is not entry:
         raise RuntimeError(f"harness: table entry {entry} not installed")
@@ -201,7 +210,8 @@ def typed_case(w: Any, dev_cls: str, vt: type[DPTBase], payload: Any, entry: Any
         return [(f"processing-outcome-differs:{dev_cls}", f"{dev_cls}(value_type={vt.__name__}) table {entry.__name__} payload {payload!r}: {outcome}")]
     if sa != sb:
         rel = "subclass" if issubclass(entry, vt) else "superclass" if issubclass(vt, entry) else "unrelated"
-        return [(f"typed-state-differs:{dev_cls}:{rel}-entry", f"{dev_cls}(value_type={vt.__name__}) with table entry {entry.__name__} ({rel}) payload {payload!r}: {sa[0]} vs without table {sb[0]}")]
+        after = "" if prev is None else f" after the table held {prev.__name__} for the address"
+        return [(f"typed-state-differs:{dev_cls}:{rel}-entry" + (":replaced-table" if prev is not None else ""), f"{dev_cls}(value_type={vt.__name__}) with table entry {entry.__name__} ({rel}){after} payload {payload!r}: {sa[0]} vs without table {sb[0]}")]
     return []
 
 
@@ -233,6 +243,19 @@ def typed_worker(dev_cls: str, k: int, n: int, seed: int) -> Part:
                     for s_, d in viols:
                         part.viol(s_, d, ["typed", dev_cls, vt.__name__, pl(payload), entry.__name__], rank=(len(repr(payload)), vt.__name__, entry.__name__))
                     part.outcomes["typed:" + ("violating" if viols else "same")] += 1
+                    if entry is not vt:
+                        continue
+                    # the table entry REPLACED on the live object: up to two earlier entries of the same payload shape
+                    for prev in [c for c in dpts_for(payload) if c is not entry][:2]:
+                        part.evaluations += 1
+                        part.nontrivial += 1
+                        try:
+                            viols = typed_case(w, dev_cls, vt, payload, entry, prev)
+                        except Exception as exc:  # noqa: BLE001
+                            viols = [(exc_sig(f"typed-harness:{dev_cls}", exc), f"{vt.__name__} {entry.__name__} after {prev.__name__} {payload!r}: {exc!r}")]
+                        for s_, d in viols:
+                            part.viol(s_, d, ["typed", dev_cls, vt.__name__, pl(payload), entry.__name__, prev.__name__], rank=(len(repr(payload)), vt.__name__, entry.__name__))
+                        part.outcomes["typed-replaced:" + ("violating" if viols else "same")] += 1
     return part
 
 
@@ -368,9 +391,9 @@ def run(ctx: Ctx) -> None:
 
 def replay(case: Any) -> list[tuple[str, str]]:
     if case[0] == "typed":
-        _t, dev_cls, vtn, p, en = case
+        _t, dev_cls, vtn, p, en = case[:5]
         with CoreWorld(rate_limit=0) as w:
-            return typed_case(w, dev_cls, entry_of("cls:" + vtn), unpl(p), entry_of("cls:" + en))
+            return typed_case(w, dev_cls, entry_of("cls:" + vtn), unpl(p), entry_of("cls:" + en), entry_of("cls:" + case[5]) if len(case) > 5 else None)
     spec, addr, steps = case[0], case[1], case[2]
     saved = TC.time
     TC.time = FixedClock()  # type: ignore[assignment]
